@@ -527,10 +527,11 @@ func (vfs *OrefaFS) MkdirAll(path string, perm fs.FileMode) error {
 		dirName, _ = avfs.SplitAbs(vfs, dirName)
 	}
 
-	for _, absPath = range ds {
-		_, fileName := avfs.SplitAbs(vfs, absPath)
+	// ds lists the missing directories deepest first : they are created from the existing ancestor downwards.
+	for i := len(ds) - 1; i >= 0; i-- {
+		_, fileName := avfs.SplitAbs(vfs, ds[i])
 
-		parent = vfs.createDir(parent, absPath, fileName, perm)
+		parent = vfs.createDir(parent, ds[i], fileName, perm)
 	}
 
 	return nil
